@@ -8,6 +8,18 @@ curve, window length, window count, sigma_f) is enumerated by deviation count
 captured) and every verdict is compared with ``hvmc.ref.sesame`` evaluated on
 the peak of the mean curve inside the search range.  The monotonicity claims are
 checked on the observed verdicts of all comparable pairs of one curve.
+
+Violation keys
+  C16:<fn>:criterion-<n>:verdict             verdict differs from the guideline
+  C16:<fn>:verbosity:verdicts-differ         verdicts depend on ``verbose``
+  C16:clarity:verbose2-empty-flank:raises    verbose=2 raises when no sample lies
+                                             strictly inside (f0/4, f0) or (f0, 4 f0)
+                                             although verbose=0/1 give a verdict (DESIGN 9 #13)
+  C16:clarity:sigma-curve-without-peak:raises  mean*exp(+-std) has no interior peak:
+                                             raises instead of failing criterion iv (#16)
+  C16:clarity:other-input:raises, C16:reliability:any-input:raises   any other exception
+  C16:reliability:criterion-ii:monotone-windows, C16:clarity:criterion-v:monotone-sigma-f
+  C16:<fn>:malformed-return, C16:harness:vacuous-enumeration
 """
 import contextlib
 import io
@@ -357,7 +369,8 @@ def _spaces(tier):
     if tier == "quick":
         rel = dict(a0=[4.0, 1.5], sides=REL_SIDES, std=STDS, lw=LWS, nw=NWS)
         return cl, 2, rel, 2
-    rel = dict(a0=[4.0], sides=REL_SIDES[:2], std=STDS, lw=LWS, nw=NWS)
+    rel = dict(a0=[4.0], sides=REL_SIDES[:2], std=[n for n in STDS if not n.startswith("t")],
+               lw=LWS, nw=NWS)
     return cl, 2, rel, None
 
 
@@ -565,7 +578,8 @@ def describe(tier):
              + ("" if tier == "quick" else " plus the full product left flank x right flank x std curve")
              + " and reliability cases = "
              + (f"all configurations of (A0, flanks, std curve, window length, count) within {rk} deviations"
-                if rk is not None else "the full product of (flanks, std curve, window length, count)")
+                if rk is not None else "the full product of (2 flank pairs, constant and bump std curves, "
+                                       "window length, count)")
              + "; every case is executed with verbose 0, 1 and 2; a case is non-trivial/distinct by "
              "(function, grid, f0, second peak, range kind, reference verdict sets)",
         bounds=dict(grids=GRID_NAMES, f0=F0S, second=SECONDS, ranges=RANGES, a0=A0S, flanks=SIDES,
